@@ -142,7 +142,8 @@ def run_case(case):
         for i, s_ in enumerate(steps):
             if s_["op"] == "edit":
                 try:
-                    project.write_state(paths[truth], truth, "agreeing", lambda: domain.to_ir(s_["ir"]), None, method)
+                    project.write_state(paths[truth], truth, "agreeing", lambda: domain.to_ir(s_["ir"]), None, method,
+                                        nested=case.get("nested", False))
                     with open(paths[truth]) as f:
                         hw = project.handwritten(f.read(), truth, method)
                     with open(paths[truth], "w") as f:
@@ -156,7 +157,11 @@ def run_case(case):
                 if k == truth or k not in given:
                     continue
                 try:
-                    project.write_state(paths[k], k, s_["state"], lambda: domain.to_ir(s_["ir"]), lambda: domain.to_ir(s_["ir"]), method)
+                    st_ = s_["state"]
+                    if k == "class" and case.get("nested") and st_ in ("missing", "empty", "absent"):
+                        st_ = "stale"  # a nested class target must already exist in its outer class (as in C09)
+                    project.write_state(paths[k], k, st_, lambda: domain.to_ir(s_["ir"]), lambda: domain.to_ir(s_["ir"]), method,
+                                        nested=case.get("nested", False))
                 except Exception:
                     pass
                 dirty = True
@@ -166,7 +171,7 @@ def run_case(case):
             if new_truth not in given or not os.path.isfile(paths[new_truth]):
                 new_truth = truth
             try:
-                defs, _ = project.find_defs(open(paths[new_truth]).read(), new_truth, method)
+                defs, _ = project.find_defs(open(paths[new_truth]).read(), new_truth, method, case.get("nested", False))
             except SyntaxError:
                 defs = []
             if len(defs) != 1:
